@@ -632,3 +632,42 @@ def rule_loopstore(ctx) -> RuleResult:
             elif verdict.startswith("UNDECIDED"):
                 res.notes.append(f"UNDECIDED {q}: {norm(m.node)[:80]}")
     return res
+
+
+# ---------------------------------------------------------------------------------------------
+# R-BITMASK (C09): the label/block incidence matrix cannot lose a label by overflow.
+# scipy's sparse constructors *sum* repeated (row, col) pairs.  The planner feeds them ones of a narrow dtype (uint8): unless the matrix is
+# built as bool (sum = logical or) or from de-duplicated pairs, a label with 256 members in one block sums to 0 and is recorded as absent
+# from that block -- it then belongs to no cohort and its result is silently the fill value.
+_NARROW = ("np.uint8", "np.int8", "np.uint16", "np.int16", "'uint8'", "'int8'", "'u1'", "'i1'")
+
+
+def rule_bitmask(ctx) -> RuleResult:
+    res = RuleResult("R-BITMASK", "the label/block incidence matrix is built so that repeated pairs cannot wrap around", min_instances=1)
+    from .codes import _local_closure
+    f = ctx.prog.funcs.get("core._compute_label_chunk_bitmask")
+    if f is None:
+        raise AnalysisError("core._compute_label_chunk_bitmask is gone (anchor)")
+    ctors = []
+    for g in [f] + [h for q, h in ctx.prog.funcs.items() if q.startswith(f.qualname + ".")]:
+        for c in calls_in(g.node):
+            if norm(c.func).split(".")[-1] in ("csc_array", "csr_array", "coo_array", "csc_matrix", "csr_matrix", "coo_matrix") and c.args \
+                    and isinstance(c.args[0], ast.Tuple) and len(c.args[0].elts) == 2:
+                ctors.append((g, c))
+    if not ctors:
+        res.notes.append("the incidence matrix is no longer built from (data, (rows, cols)) triplets: rule not applicable")
+        res.min_instances = 0
+        return res
+    for g, c in ctors:
+        dt = kwarg(c, "dtype")
+        as_bool = dt is not None and norm(dt) in ("bool", "np.bool_", "'bool'")
+        data = c.args[0].elts[0]
+        clo = _local_closure(g, data)
+        txt = " ".join(norm(e) for e in clo)
+        narrow = [w for w in _NARROW if w in txt]
+        res.inst(f"{g.qualname}: {norm(c)[:60]}: built as bool: {as_bool}; data of a narrow dtype: {narrow or False}", f"{g.qualname}|{norm(c)[:30]}")
+        if not as_bool and narrow:
+            res.report(f"{g.qualname}|incidence-overflow", g.where(c), g.qualname,
+                       f"'{norm(c)[:70]}' sums repeated (block, label) pairs in {narrow[0]}: a label with a multiple of 256 members in one block is recorded as "
+                       "absent from it, is assigned to no cohort (or a plan that does not cover it) and silently receives the fill value")
+    return res
